@@ -497,7 +497,7 @@ class SqlalchemyRender:
                 stmt = self.prepare_select(cte.query)
                 alias = cte.name
 
-                query = query.add_cte(stmt.cte(self.get_alias(alias), nesting=True))
+                query = query.add_cte(stmt.cte(self.get_alias(alias), nesting=not getattr(self, '_hoist_ctes', False)))
 
         if node.distinct:
             query = query.distinct()
@@ -611,15 +611,27 @@ class SqlalchemyRender:
         return query
 
     def prepare_union(self, from_table):
-        step1 = self.prepare_select(from_table.left)
-        step2 = self.prepare_select(from_table.right)
+        # SQLite does not read a parenthesised operand of a set operation ("(a UNION b) UNION c"):
+        #  an operand that is itself a set operation is read from a derived table, and a WITH clause written in
+        #  front of the chain goes to the top of the statement (it has to stay visible to the later operands)
+        in_sqlite_chain = self.dialect.name == 'sqlite' and (
+            isinstance(from_table.left, (ast.Union, ast.Intersect, ast.Except))
+            or isinstance(from_table.right, (ast.Union, ast.Intersect, ast.Except)))
+        hoist_before = getattr(self, '_hoist_ctes', False)
+        if in_sqlite_chain:
+            self._hoist_ctes = True
+        try:
+            step1 = self.prepare_select(from_table.left)
+            step2 = self.prepare_select(from_table.right)
+        finally:
+            self._hoist_ctes = hoist_before
 
         if self.dialect.name == 'sqlite':
-            # SQLite does not read a parenthesised operand of a set operation ("(a UNION b) UNION c"):
-            #  an operand that is itself a set operation is read from a derived table
             def as_operand(step):
                 if isinstance(step, sa.sql.selectable.CompoundSelect):
-                    return sa.select(sa.literal_column('*')).select_from(step.subquery())
+                    sub = step.subquery()
+                    cols = list(sub.c) or [sa.literal_column('*')]
+                    return sa.select(*cols).select_from(sub)
                 return step
             step1, step2 = as_operand(step1), as_operand(step2)
 
